@@ -181,11 +181,14 @@ func (e *Env) Close() {
 	if e.Conn != nil {
 		e.Conn.Close()
 	}
-	if e.cancel != nil {
-		e.cancel()
-	}
+	// Cleanup before cancelling: the server's own shutdown goroutine (grpc/server.go Start)
+	// re-reads s.server after its nil check, so cancelling first can race with Cleanup
+	// setting it to nil and crash the process on the way out
 	if e.svc != nil {
 		_ = e.svc.Cleanup(context.Background())
+	}
+	if e.cancel != nil {
+		e.cancel()
 	}
 	if e.Client != nil {
 		e.Client.Close()
